@@ -785,6 +785,31 @@ void pen_case(uint64_t seed, const std::string& id, bool verbose)
         }
         g_count["feasible-zero-mult"]++;
     }
+    // convex flag: whenever the penalty objects declare themselves convex the sub-gradient inequality
+    // P(y) >= P(x) + G(x).(y - x) must hold (own objectives only: their flag is known to be truthful)
+    if (lin.convex() && dynamic_cast<const poly_function_t*>(objective.get()) != nullptr)
+    {
+        dvec y(n);
+        for (auto& yi : y) yi = g.point();
+        const auto yv = to_vector(y);
+        const ld   py[3] = {lin.vgrad(yv), quad.vgrad(yv), al.vgrad(yv)};
+        const ld   px[3] = {lv, qv, av};
+        const vector_t* gs[3] = {&lg, &qg, &ag};
+        const char* names[3]  = {"linear", "quadratic", "augmented"};
+        for (int w = 0; w < 3; ++w)
+        {
+            ld lin_part = 0, mag = fabsl(px[w]) + fabsl(py[w]);
+            for (size_t k = 0; k < n; ++k)
+            {
+                const ld t = static_cast<ld>((*gs[w])(static_cast<tensor_size_t>(k))) * (static_cast<ld>(y[k]) - x[k]);
+                lin_part += t;
+                mag += fabsl(t);
+            }
+            if (py[w] < px[w] + lin_part - (exact ? 0.0L : 1e-9L * mag))
+                fail(std::string("convex-flag-") + names[w], id, "y=" + hexv(y) + " P(y)=" + vh::hexf(static_cast<double>(py[w])) + " :: " + line);
+        }
+        g_count["convex-flag-checked"]++;
+    }
     // value-only evaluation returns the same value
     if (lin.vgrad(xv) != lv || quad.vgrad(xv) != qv || al.vgrad(xv) != av) fail("value-only-differs", id, line);
 
